@@ -79,8 +79,17 @@ def load_program(repo=REPO):
     return _prog_cache[key], info
 
 
+_machine_cache = {}
+
+
 def new_machine(prog, repo=REPO):
+    m = _machine_cache.get(id(prog))
+    if m is not None:
+        m.reset()
+        return m
     m = Machine(prog, os.path.join(repo, 'src'))
+    _machine_cache.clear()
+    _machine_cache[id(prog)] = m
     from . import model_regex
     model_regex.install(m)
     for modname in ('model_hash', 'model_chrono', 'model_http', 'model_misc'):
